@@ -114,7 +114,7 @@ Proof. exact dest_writes_locked. Qed.
    that fits the windows is held back; with C08_stream_order: what is not yet delivered is exactly
    the queue, in order, and it moves as soon as the receiver grants enough *)
 Theorem C08_delivered_when_windows_allow : forall ls,
-  single_init ls = true -> P_conn ls (obs_of ls) /\ P_stream ls (obs_of ls) /\ P_strand ls (obs_of ls).
+  P_conn ls (obs_of ls) /\ P_stream ls (obs_of ls) /\ P_strand ls (obs_of ls).
 Proof. exact delivery_under_windows. Qed.
 Print Assumptions C08_delivered_when_windows_allow.
 
@@ -160,7 +160,7 @@ Theorem C08_prio_oracle_is_the_property : forall ls o, c08_prio_ok ls o = true <
 Proof. exact (b_faithful_iff true). Qed.
 
 Example C08_example :
-  rfc_valid w_ex = true /\ Proofs_props.single_init w_ex = true /\ length (obs_of w_ex) = length w_ex
+  rfc_valid w_ex = true /\ length (obs_of w_ex) = length w_ex
   /\ c09_ok w_ex (obs_of w_ex) = true /\ c08_ok w_ex (obs_of w_ex) = true
   /\ sents Sv 1 (concat (obs_of w_ex)) = 3%Z /\ creds Cl 1 (concat (obs_of w_ex)) = 12%Z.
 Proof. exact example_ok. Qed.
